@@ -180,7 +180,7 @@ pub fn gen(args: &Args, out: &mut dyn Write) {
         return;
     }
     let thorough = args.tier == "thorough";
-    let n = args.n.unwrap_or(if thorough { 60_000 } else { 6_000 });
+    let n = args.n.unwrap_or(if thorough { 400_000 } else { 6_000 });
     let mut rng = Rng::new(args.seed ^ 0x5B11E);
     let tys = [("f32", 1usize), ("vec2", 2), ("pt2", 2), ("vec3", 3), ("col3", 3)];
     for i in 0..n {
